@@ -52,7 +52,7 @@ func flattenedPaths(root *sRoot) map[protoreflect.FullName]bool {
 			out[p.path[i].FullName()] = true
 		}
 		// exposed oneof inlined from a flattened object: its "final" field is the flattened message itself
-		if len(p.path) > 0 && p.field.kind == "oneof" && p.field.refMd != nil && p.final().Message() != nil && len(p.path) > 1 {
+		if len(p.path) > 0 && p.isExposedOneof() {
 			out[p.final().FullName()] = true
 		}
 	}
